@@ -163,6 +163,13 @@ def record_one(task):
     fc = _JS.FormatChecker() if rng.random() < 0.5 else None
     cls = _CLS[d]
     I = g.instance(S if isinstance(S, dict) else {})
+    if isinstance(S, dict) and rng.random() < 0.08:
+        # a `pattern` no regular-expression engine compiles: check_schema does not look at it (the metaschema describes
+        # it through `format` only), and an instance that is no string never reaches it
+        S = dict(S)
+        S["pattern"] = rng.choice(["(", "[a", "a{2,1}", "(?P<n>a)(?P<n>b)", "*"])
+        if isinstance(I, str):
+            I = [I]
     reuse = rng.random() < 0.6
     if reuse and rng.random() < 0.5:
         I = twist(I, rng)          # numbers of every kind (int, integer-valued float, fractional) at the same places
